@@ -8,6 +8,7 @@ CONSTANTS
   WithCrash = TRUE
   HeadInBatch = FALSE
   CrashInHeadWindow = TRUE
+  WithTamper = FALSE
   SpendTrimCandidate = FALSE
 VIEW view
 INVARIANTS Recoverable
